@@ -451,8 +451,8 @@ class C16(Prop):
     id = 'C16'
     props_file = 'Props/C16.v'
     imports = ['Model.StaticPath', 'Model.Ranges', 'Model.StaticObs']
-    quick_n = 900
-    thorough_n = 12000
+    quick_n = 1200
+    thorough_n = 8000
     rule = ('request paths of up to 6 segments over hostile ("..", ".", "", %2e%2e, %252e%252e, ..%2f, backslash, %00, '
             'overlong UTF-8 ...) and benign (names inside / beside / above the root) segments, decoded-absolute paths, '
             'two docroot layouts with name-extending siblings and secrets in parent and grand-parent, mounted at None, '
